@@ -16,6 +16,7 @@ type objects struct {
 	lsrc  string
 	lctx  interface{}
 	usedP bool
+	cache tokCache
 }
 
 // execOps runs a history on objs.  For every observing operation it returns
@@ -42,13 +43,13 @@ func (e *env) execOps(ops []Op, o *objects, sess *act.Session, budget int64, per
 				continue
 			}
 			sess.Ctx = o.pctx
-			u := e.runParse(o.p, e.newLexFor(op.In, nil), op.In, op.Fault, sess)
+			u := e.runParse(o.p, e.newLexFor(op.In, nil), op.In, op.Fault, sess, o.cache)
 			o.usedP = true
 			var f string
 			if perOp != nil {
 				pf := e.g.NewParser()
 				pf.SetContext(o.pctx)
-				f = e.runParse(pf, e.newLexFor(op.In, nil), op.In, op.Fault, sess).String()
+				f = e.runParse(pf, e.newLexFor(op.In, nil), op.In, op.Fault, sess, o.cache).String()
 			}
 			note(i, u.String(), f)
 		case "preset":
@@ -101,7 +102,7 @@ func (e *env) execOps(ops []Op, o *objects, sess *act.Session, budget int64, per
 			o.l.Reset()
 			in := &Input{Text: o.lsrc}
 			sess.Ctx = o.pctx
-			u := e.runParse(o.p, o.l, in, op.Fault, sess)
+			u := e.runParse(o.p, o.l, in, op.Fault, sess, nil)
 			var f string
 			if perOp != nil {
 				pf := e.g.NewParser()
@@ -110,7 +111,7 @@ func (e *env) execOps(ops []Op, o *objects, sess *act.Session, budget int64, per
 				if o.lctx != nil {
 					lf.SetContext(o.lctx)
 				}
-				f = e.runParse(pf, lf, in, op.Fault, sess).String()
+				f = e.runParse(pf, lf, in, op.Fault, sess, nil).String()
 			}
 			note(i, u.String(), f)
 		}
@@ -119,7 +120,7 @@ func (e *env) execOps(ops []Op, o *objects, sess *act.Session, budget int64, per
 }
 
 func (e *env) newObjects() *objects {
-	o := &objects{}
+	o := &objects{cache: tokCache{}}
 	if e.g.HasParser() {
 		o.p = e.g.NewParser()
 	}
